@@ -64,7 +64,7 @@ theorem void_elements_partial (tag : Str) (attrs : List Attr) (ht : WFTag tag) (
 
 /-- the source tells a full document from a fragment by the presence of an `</html>` end tag anywhere in the input (the property's fourth
     anchor); the round-trip oracle parses every source that contains one as a document, independently of the library's choice -/
-theorem source_document_rule : Generated.documentRule = "bytes.Contains(templateBytes, []byte(\"</html>\"))" := by decide
+theorem source_document_rule : Generated.documentRule = "contains(input, \"</html>\")" := by decide
 
 /-! non-vacuity -/
 example : unescape (escape "a < b & \"c\" 'd' > &amp;".toList) = "a < b & \"c\" 'd' > &amp;".toList := unescape_escape _
